@@ -346,7 +346,9 @@ func c15BatchWorld(rc *RunCtx) {
 					w.appendTo(tf, data)
 				}
 			case k <= 6:
-				d := []time.Duration{time.Millisecond, 30 * time.Millisecond, 249 * time.Millisecond, 251 * time.Millisecond, 1300 * time.Millisecond, 3 * time.Second}[t.W(6)]
+				// (multiples of the 250ms poll period put the writer and the poller at the same fake instant, where the scheduler
+				// decides who goes first, between any two of the poller's system calls)
+				d := []time.Duration{time.Millisecond, 30 * time.Millisecond, 249 * time.Millisecond, 251 * time.Millisecond, 1300 * time.Millisecond, 3 * time.Second, 250 * time.Millisecond, 500 * time.Millisecond, 1250 * time.Millisecond, 200 * time.Millisecond, 50 * time.Millisecond}[t.W(11)]
 				w.opf("pause %v", d)
 				time.Sleep(d)
 				simrt.Yield("world:pause")
